@@ -215,13 +215,13 @@ func hxHasCap(caps []string, kw string) bool {
 
 // respond handles one command line and queues the reply.
 func (s *hxSrv) respond(line []byte) {
-	sp := 0
-	for sp < len(line) && line[sp] != ' ' {
-		sp++
-	}
-	verb := hxUpper(line[:sp])
-	if s.inAuth {
-		verb = "AUTH-CONT"
+	verb := "AUTH-CONT"
+	if !s.inAuth {
+		sp := 0
+		for sp < len(line) && line[sp] != ' ' {
+			sp++
+		}
+		verb = hxUpper(line[:sp])
 	}
 	c := &hxCmd{verb: verb, line: string(line), state: s.state, mark: "cmd" + string(rune('A'+len(s.cmds)%26)) + string(rune('a'+len(s.cmds)/26))}
 	s.cmds = append(s.cmds, c)
